@@ -100,7 +100,7 @@ theorem offset_simple_ring (p : Part) (k L : Int) (hL : 0 < L) (h0 : 0 ≤ p.lo)
         have hs : (p.lo + k) % L = p.lo + k := Int.emod_eq_of_lt (by omega) (by omega)
         refine ⟨.simple ⟨p.lo + k, p.hi + k, p.strand⟩, ?_, ?_, by simp [Loc.len, Loc.parts, Part.len]; omega, rfl⟩
         · have hlt : ¬ L < 1 := by omega
-          simp [offsetLocation, hL0, hk, hlen, hlt, htriv, Loc.start, Loc.end, shiftedParts_simple p k h1, rebuild,
+          simp [offsetLocation, offsetTrivial, wrapParts, hL0, hk, hlen, hlt, htriv, Loc.start, Loc.end, shiftedParts_simple p k h1, rebuild,
             pure, Except.pure, bind, Except.bind]
         · intro i
           rw [mem_simple]
@@ -130,7 +130,7 @@ theorem offset_simple_ring (p : Part) (k L : Int) (hL : 0 < L) (h0 : 0 ≤ p.lo)
             have c1 : (p.lo + k) % L < (p.lo + k) % L + (p.hi - p.lo) - 1 + 1 := by omega
             have c2 : (p.lo + k) % L + (p.hi - p.lo) - 1 + 1 ≤ L := by omega
             have c3 : (p.lo + k) % L + (p.hi - p.lo) - 1 + 1 = (p.lo + k) % L + (p.hi - p.lo) := by omega
-            simp [offsetLocation, hL0, hk, hlen, hlt, htriv, Loc.start, Loc.end, shiftedParts_simple p k h1,
+            simp [offsetLocation, offsetTrivial, wrapParts, hL0, hk, hlen, hlt, htriv, Loc.start, Loc.end, shiftedParts_simple p k h1,
               pure, Except.pure, bind, Except.bind, he2, hs0, c1, c2, c3, c1', c2', mergeAdjacent, Loc.ofParts]
             intro a _ c; exact absurd ⟨of_decide_eq_true a, by omega, of_decide_eq_true c⟩ htriv
           · intro i
@@ -159,7 +159,7 @@ theorem offset_simple_ring (p : Part) (k L : Int) (hL : 0 < L) (h0 : 0 ≤ p.lo)
             have c3 : (p.lo + k) % L + (p.hi - p.lo) - 1 - L + 1 = (p.lo + k) % L + (p.hi - p.lo) - L := by omega
             have c4 : 0 < (p.lo + k) % L + (p.hi - p.lo) - L := by omega
             have c5 : (p.lo + k) % L + (p.hi - p.lo) - L ≤ L := by omega
-            simp [offsetLocation, hL0, hk, hlen, hlt, htriv, Loc.start, Loc.end, shiftedParts_simple p k h1,
+            simp [offsetLocation, offsetTrivial, wrapParts, hL0, hk, hlen, hlt, htriv, Loc.start, Loc.end, shiftedParts_simple p k h1,
               pure, Except.pure, bind, Except.bind, he2, hs0, hs1, c1, c3, c4, c5, c1', c2', mergeAdjacent, Loc.ofParts]
             intro a _ c; exact absurd ⟨of_decide_eq_true a, by omega, of_decide_eq_true c⟩ htriv
           · intro i
